@@ -265,6 +265,7 @@ DeactivationJustified(sch, before, act, mtype, called) ==
       multiActive == {n \in SSet(before) : sch[n].multi}
       involved == AddClosure(sch, roots \cup multiActive) \cup SSet(act) \cup SSet(before)
       direct == {n \in goneSet :
+                   \/ ~SEvery(before, sch[n].require)   \* was already missing a Require
                    \/ (mtype = "remove" /\ SHas(called, n))
                    \/ (mtype = "set" /\ ~SHas(called, n))
                    \/ \E b \in involved : b # n /\ SHas(sch[b].remove, n)}
